@@ -22,7 +22,7 @@
    [Rec::AliasSubstituted] restart), or moves the index behind the token.
 
    Not modelled (the model answers [Outside]): here-documents, $-expansions,
-   backquotes, comments, tilde words, {name}> redirections.  Syntax errors are
+   backquotes, tilde words, {name}> redirections.  Syntax errors are
    not predicted in general: where the real parser stops, the harness reports
    how far the lexer got and only that prefix of the buffer is compared. *)
 From Yv Require Import Common.Base.
@@ -169,6 +169,22 @@ Fixpoint skip_blanks (l : list N) : list bool * list N :=
       end
   end.
 
+(* skip_comment: a comment ends just before the newline; line continuation is
+   not recognised in it *)
+Fixpoint skip_comment (l : list N) : list bool * list N :=
+  match l with
+  | [] => ([], [])
+  | c :: r => if c =? 10 then ([], l) else let '(m, r') := skip_comment r in (false :: m, r')
+  end.
+
+(* skip_blanks_and_comment *)
+Definition skip_gap (l : list N) : list bool * list N :=
+  let '(gm, l1) := skip_blanks l in
+  match l1 with
+  | c :: _ => if c =? 35 then let '(cm, l2) := skip_comment l1 in (gm ++ cm, l2) else (gm, l1)
+  | [] => (gm, l1)
+  end.
+
 (* operator_tail below the first character *)
 Fixpoint op_tail (fuel : nat) (o : oper) (l : list N) : oper * list bool * list N :=
   match fuel with
@@ -294,7 +310,7 @@ Inductive tkind :=
 Inductive asg := NoAsg | Asg | AsgEmpty.
 
 Record lexed := mkLexed {
-  lx_gap : list bool;      (* marks of the blanks / line continuations skipped before the token *)
+  lx_gap : list bool;      (* marks of the blanks, line continuations and comment skipped before the token *)
   lx_tok : list bool;      (* marks of the characters of the token (Token::index .. Lexer::index) *)
   lx_kind : tkind;
   lx_lit : option str;     (* to_string_if_literal of a TWord / TKey token *)
@@ -308,14 +324,14 @@ Definition head_is_redir (l : list N) : bool :=
   match l with c :: _ => (c =? 60) || (c =? 62) | [] => false end.
 
 (* Parser::require_token = skip_blanks_and_comment + Lexer::token.
-   [inr LexOutside]: a construct the model does not cover (comment, $, `, ~, {x}> ...);
+   [inr LexOutside]: a construct the model does not cover ($, `, ~, {x}> ...);
    [inr LexError]: a lexical error (unclosed quotation). *)
 Definition lex (l : list N) : lexed + lexfail :=
-  let '(gm, l1) := skip_blanks l in
+  let '(gm, l1) := skip_gap l in
   match l1 with
   | [] => inl (mkLexed gm [] TEof None NoAsg)
   | c :: r =>
-      if (c =? 35) || (c =? 126) then inr LexOutside
+      if c =? 126 then inr LexOutside
       else
         match first_op c with
         | Some o =>
